@@ -193,7 +193,6 @@ Definition w_empty_piecewise : xml := x_eq (m_leaf "piecewise").
 (** found by the enumeration: *)
 Definition w_ci_comment_first : xml := x_eq (m_el "ci" [Comment "c"; Text "y"]).      (* name check skipped, lookup fails *)
 Definition w_apply_without_operand : xml := x_eq (m_el "apply" [m_ci "y"]).           (* apply needs only one child *)
-Definition w_empty_apply_in_piecewise : xml := x_eq (m_el "piecewise" [m_leaf "apply"]). (* hmm: apply with no child is rejected *)
 Definition w_unvalidated_degree : xml :=                                               (* children of degree/logbase/bvar are never visited *)
   x_eq (m_apply "root" [m_el "degree" [m_apply "divide" [m_ci "y"]]; m_ci "y"]).
 Definition w_unvalidated_bvar : xml :=
